@@ -495,6 +495,48 @@ func runC06(rc *RunCtx) {
 		spec.MaxSteps = 20000000
 		spec.TimeoutSec = 1500
 	}
+	if !large && t.Choose(4) == 3 {
+		// crash and restart: the same command was killed at an arbitrary step of an earlier
+		// attempt - same input, same temporary directory, same process id (a container, a
+		// reboot) - and has left whatever it had on disk: chunk files, a partial output.
+		// The run that follows must not be disturbed by any of it.
+		knobs["pid"] = 4242
+		crash := spec
+		crash.CrashAt = 20 + t.Choose(4000)
+		if t.Choose(2) == 1 {
+			// the killed attempt was on other data and cut it in more chunks
+			var pb strings.Builder
+			for _, i := range perm {
+				r := recs[i]
+				b := []byte(r.Seq)
+				for x, y := 0, len(b)-1; x < y; x, y = x+1, y-1 {
+					b[x], b[y] = b[y], b[x]
+				}
+				r.Seq = string(b) + "acgtacgtac"
+				pb.WriteString(r.text())
+			}
+			prev := filepath.Join(dir, "previous.fasta")
+			os.WriteFile(prev, []byte(pb.String()), 0644)
+			ca := append([]string{}, args...)
+			ca[len(ca)-1] = prev
+			for k := range ca {
+				if ca[k] == "--chunk-count" {
+					ca[k+1] = "100"
+				}
+			}
+			crash.Args = ca
+		}
+		cco := rc.RunCmd(crash)
+		if cco.Killed {
+			rc.Fault("killed_then_restarted_" + map[bool]string{true: "memory", false: "disk"}[o.InMemory])
+			left, _ := filepath.Glob(filepath.Join(dir, "obiseq_chunks_*", "*"))
+			if len(left) > 0 {
+				rc.Probe("chunk_files_left_by_the_killed_run")
+			}
+		} else {
+			rc.Probe("crash_step_beyond_the_end_of_the_run")
+		}
+	}
 	co := rc.RunCmd(spec)
 	mode := "disk"
 	if o.InMemory {
@@ -610,7 +652,7 @@ func init() {
 		Random: func(tier string) int { return map[string]int{"quick": 320, "thorough": 24000}[tier] },
 		Run:    runC06,
 		Level:  "exploration",
-		Rule:   "enumerated part: more than 65536 distinct 16-mers (+ a few duplicates) in one chunk, in memory (quick) and also on disk (thorough) (also drawn with probability 1/400 in the random part, 65537-68536 sequences); each other case = a generated multiset of records (1-25 distinct sequences incl. one-base variants, counts absent/1/n, sample present, absent or already merged_sample maps, tag present or absent, with word or numeric values sharing an integer part) in a drawn input permutation, dereplicated by the real obiuniq main in a child process with drawn -m / -c / --na-value / --no-singleton / --in-memory or on-disk / --chunk-count 1,2,3,7,100 / --max-cpu / --batch-size and a seeded schedule (on-disk mode uses real chunk files in the run's TMPDIR); the output is compared as a set with a reference group-by (count sums, merged map sums, singleton rule). distinct = distinct (options, configuration, schedule signature); non-trivial = at least one step with >=2 runnable tasks",
+		Rule:   "enumerated part: more than 65536 distinct 16-mers (+ a few duplicates) in one chunk, in memory (quick) and also on disk (thorough) (also drawn with probability 1/400 in the random part, 65537-68536 sequences); each other case = a generated multiset of records (1-25 distinct sequences incl. one-base variants, counts absent/1/n, sample present, absent or already merged_sample maps, tag present or absent, with word or numeric values sharing an integer part) in a drawn input permutation, dereplicated by the real obiuniq main in a child process with drawn -m / -c / --na-value / --no-singleton / --in-memory or on-disk / --chunk-count 1,2,3,7,100 / --max-cpu / --batch-size and a seeded schedule (on-disk mode uses real chunk files in the run's TMPDIR); one case in four is preceded by the same command killed at a drawn scheduling step in the same directory and with the same process id (crash and restart: only what is on disk survives); the output is compared as a set with a reference group-by (count sums, merged map sums, singleton rule). distinct = distinct (options, configuration, schedule signature); non-trivial = at least one step with >=2 runnable tasks",
 		Real:   []string{"the real obiuniq main", "obichunk (IUniqueSequence, ISequenceChunk, ISequenceChunkOnDisk, ISequenceSubChunk)", "obiiter.Distribute / IMergeSequenceBatch", "obiformats.WriterDispatcher and the FASTA writer/reader on real temporary files", "obiseq.Merge / StatsOn"},
 		Stub:   []string{"sync primitives, pools, scheduler (simrt)", "process exit (captured)", "stdout/stderr (files)"},
 	})
